@@ -192,7 +192,14 @@ def run_c1(kind, name, fail_at, err="pipe"):
                 return True
             return False
         gw.fail_policy = pol
-    return vloop.run_session(kind=kind, script=[it_connect, it_send(MSGS[name])], setup=setup, heal=steady_state(pk["PROBE"]))
+    def second(sess):
+        # once the client is connected again, the application sends another message: it must be written like any other
+        if len(sess.gw.conns) < 2 or sess.client.state != vloop.State.CONNECTED:
+            return False
+        sess.obs.marks["second_send_at"] = len(sess.gw.log)
+        sess.spawn(sess.client.send(MSGS["hdg"]()), "send-after-recovery")
+        return True
+    return vloop.run_session(kind=kind, script=[it_connect, it_send(MSGS[name]), second], setup=setup, heal=steady_state(pk["PROBE"]))
 
 
 def judge_c(sess, o, fault_kind):
@@ -214,6 +221,14 @@ def judge_c(sess, o, fault_kind):
                 out.append(("no_reconnect_after_write_failure", {"fault": fault_kind}, f"log {log[i:]}"))
     if (o.states[-1] if o.states else None) != "CONNECTED":
         out.append(("not_reconnected", {"fault": fault_kind}, f"final state {o.states[-1] if o.states else None}; status {o.status}"))
+    at = o.marks.get("second_send_at")
+    if at is not None and not out:
+        later = [bytes.fromhex(e[2]) for e in log[at:] if e[0] == "write"]
+        want = [bytes(p) for p in encode_ref(sess.kind, NMEA2000Encoder(), MSGS["hdg"]())]
+        # (a single-frame message: its packet does not depend on the encoder's counter)
+        if not any(w in later for w in want):
+            out.append(("send_after_recovery_lost", {"fault": fault_kind}, f"a send() issued after the client had reconnected wrote {[x.hex()[:20] for x in later]}, "
+                        f"expected {[x.hex()[:20] for x in want]} (tasks left: {o.tasks_left})"))
     return out
 
 
